@@ -69,6 +69,7 @@ def vecRemove {β} (l : List β) (i : Nat) : Res (List β) :=
 /-- `expand_dims(axes)`: normalise against the final rank, sort, insert a unit axis at each position in turn -/
 def expandDims (a : Arr α) (axes : List Int) : Res (Arr α) :=
   let ax := sortNat (axes.map (fun i => normalizeAxisDim a.ndim i axes.length))
+  if (ax.zipIdx).any (fun p => decide (p.1 > a.ndim + p.2)) then .err .AxisOutOfBounds else
   (ax.foldl (fun (acc : Res (List Nat)) item => acc >>= fun sh => vecInsert sh item 1) (.ok a.shape)) >>= fun sh =>
   a.reshape sh
 
@@ -77,6 +78,7 @@ def squeeze (a : Arr α) (axes : Option (List Int)) : Res (Arr α) :=
   match axes with
   | some axes =>
     let ax := (sortNat (axes.map (normalizeAxis a.ndim))).reverse
+    if ax.any (fun x => decide (x ≥ a.ndim)) then .err .AxisOutOfBounds else
     -- `axes.iter().any(|a| new_shape[*a] != 1)`: indexing panics on an axis outside the rank
     (Res.mapM' (fun i => Res.idx a.shape i) ax) >>= fun dims =>
     if dims.any (fun d => d != 1) then .err .SqueezeShapeOfAxisMustBeOne
